@@ -60,7 +60,7 @@ Inductive prim :=
 | PLru | PMru       (* self.lru_ptr() / self.mru_ptr()                                                     [] *)
 | PApplyOp          (* op(entry.value_mut()): the closure of mutate writes the value                       [op; entry] *)
 | PTryWithCapacity  (* RawTable::try_with_capacity(n)                                                      [n] *)
-| PWithCapacity     (* RawTable::with_capacity(n): panics where the other returns Err                      [n] *)
+| PWithCapacity     (* RawTable::with_capacity(n): faults (panics) where the other returns Err             [n] *)
 | PMoveToTable.     (* self.move_to_table(table)                                                           [table] *)
 
 Inductive pat := PVar (x : string) | PWild | PPair (a b : pat).
@@ -71,32 +71,35 @@ Inductive lhs :=
 | LSize (e : expr)              (* e.size = .., e a reference into a bucket *)
 | LNextOf (x : string).         (* x.next = .., x an Entry held by value *)
 
-Inductive rhs :=
+(* right-hand sides and statements are one syntactic class (as in Rust, a statement is an expression of type ());
+   one class also keeps `exec` a single structural recursion *)
+Inductive tm :=
 | RExp (e : expr)
 | RPrim (p : prim) (args : list expr)
-| RCall (name : string) (params : list string) (body : stmt) (args : list expr)
+| RCall (name : string) (params : list string) (body : tm) (args : list expr)
                                   (* a call of another translated function: parameter list and body are carried in the node *)
-| RMap (r : rhs) (p : pat) (body : stmt) (tail : rhs)      (* r.map(|p| { body; tail }) on an Option *)
-| RUnwrap (r : rhs)               (* r.unwrap(): None / Err = panic *)
-| RUnwrapUnchecked (r : rhs)      (* r.unwrap_unchecked(): None / Err = fault (undefined behaviour) *)
-| RTry (r : rhs)                  (* r? : Err(e) returns Err(e) (the From conversion keeps the fields) *)
-| RProj (r : rhs) (i : nat)       (* r.0 / r.1 of a temporary pair: the other component is dropped *)
-| RIsSome (r : rhs)               (* r.is_some() *)
-| ROkOr (r : rhs) (e : expr)      (* r.ok_or(e) *)
-with stmt :=
+| RMap (r : tm) (p : pat) (body : tm) (tail : tm)           (* r.map(|p| { body; tail }) on an Option *)
+| RUnwrap (r : tm)                (* r.unwrap(): None / Err = FAULT (a panic is a fault here) *)
+| RUnwrapUnchecked (r : tm)       (* r.unwrap_unchecked(): None / Err = fault (undefined behaviour) *)
+| RTry (r : tm)                   (* r? : Err(e) returns Err(e) (the From conversion keeps the fields) *)
+| RProj (r : tm) (i : nat)        (* r.0 / r.1 of a temporary pair: the other component is dropped *)
+| RIsSome (r : tm)                (* r.is_some() *)
+| ROkOr (r : tm) (e : expr)       (* r.ok_or(e) *)
 | SSkip
-| SSeq (a b : stmt)
-| SLet (p : pat) (r : rhs)        (* let p = r; *)
+| SSeq (a b : tm)
+| SLet (p : pat) (r : tm)         (* let p = r; *)
 | SDecl (x : string)              (* let x; *)
-| SAssign (l : lhs) (r : rhs)     (* l = r;   (l -= e is written l = l - e) *)
-| SExpr (r : rhs)                 (* r;   the value is dropped *)
-| SIf (c : rhs) (a b : stmt)
-| SIfSome (p : pat) (r : rhs) (a b : stmt)                   (* if let Some(p) = r { a } else { b } *)
-| SMatchRes (r : rhs) (p1 : pat) (a : stmt) (p2 : pat) (b : stmt)   (* match r { Ok(p1) => a, Err(p2) => b } *)
-| SWhile (c : expr) (body : stmt)
-| SLoop (body : stmt)
-| SRet (r : rhs)                  (* return r; / the tail expression of a function *)
+| SAssign (l : lhs) (r : tm)      (* l = r;   (l -= e is written l = l - e) *)
+| SExpr (r : tm)                  (* r;   the value is dropped *)
+| SIf (c : tm) (a b : tm)
+| SIfSome (p : pat) (r : tm) (a b : tm)                      (* if let Some(p) = r { a } else { b } *)
+| SMatchRes (r : tm) (p1 : pat) (a : tm) (p2 : pat) (b : tm) (* match r { Ok(p1) => a, Err(p2) => b } *)
+| SWhile (c : expr) (body : tm)
+| SLoop (body : tm)
+| SRet (r : tm)                   (* return r; / the tail expression of a function *)
 | SUnknown (text : string).       (* not understood: FAULT *)
+Definition rhs := tm.
+Definition stmt := tm.
 
 Definition seq (l : list stmt) : stmt := fold_right SSeq SSkip l.
 Record fn_decl := { fn_name : string; fn_params : list string; fn_body : stmt }.
@@ -123,8 +126,7 @@ Inductive value :=
 | VTable (t : tbl)                       (* a RawTable that is not installed *)
 | VMutOp (newtag newheap : N)            (* the closure given to mutate: what it writes into the value *)
 | VOpaque                                (* a value the model does not look into (the R of mutate) *)
-| VUninit                                (* let x; *)
-| VPanic.                                (* not a value: the mark of a panic that is unwinding *)
+| VUninit.                               (* let x; *)
 
 (* ---------- the event log ---------- *)
 Inductive logitem :=
@@ -156,7 +158,7 @@ Record state := { env : envt;
                   cs : bstate;                     (* the cache *)
                   charged : bool;                  (* an erasure has happened in this operation (see `charge`) *)
                   lg : list logitem;
-                  ret : option value }.            (* Some v: the function is returning v (Some VPanic: unwinding) *)
+                  ret : option value }.            (* Some v: the function is returning v *)
 
 Fixpoint lookup (x : string) (en : envt) : option value :=
   match en with [] => None | (y, v) :: r => if String.eqb x y then Some v else lookup x r end.
@@ -369,14 +371,11 @@ Definition do_prim (p : prim) (vs : list value) (st : state) : option (value * s
   | PTryWithCapacity, [VNum n] =>
       Some (match t_alloc E n (o_alloc (ob oB)) with
             | AOk t => VOk (VTable t)
-            | AOverflow => VErr (VStruct "CapacityOverflow" [])
-            | ARefused => VErr (VStruct "AllocError" [])
+            | AOverflow => VErr (VStruct "TryReserveError::CapacityOverflow" [])
+            | ARefused => VErr (VStruct "TryReserveError::AllocError" [])
             end, st)
   | PWithCapacity, [VNum n] =>
-      Some (match t_alloc E n (o_alloc (ob oB)) with
-            | AOk t => (VTable t, st)
-            | _ => (VUnit, with_ret st (Some VPanic))
-            end)
+      match t_alloc E n (o_alloc (ob oB)) with AOk t => Some (VTable t, st) | _ => None end
   | PMoveToTable, [VTable t] =>
       g' <- b_moves_chk g (ob_moves oB) ;;
       Some (VUnit, add_log (with_cs st {| bg := g'; bcur := bcur b; bmax := bmax b; btb := t |}) [LRehash (N.of_nat (List.length (glist g)))])
@@ -425,96 +424,62 @@ Definition loop_fuel : nat := 2.
 (* ---------- calls ---------- *)
 Definition enter (ps : list string) (vs : list value) (st : state) : state :=
   {| env := combine ps vs; cs := cs st; charged := charged st; lg := lg st; ret := None |}.
-(* what the caller sees: the value returned, the cache, the log; a panic keeps unwinding *)
+(* what the caller sees: the value returned, the cache, the log *)
 Definition leave (st st' : state) : value * state :=
   (match ret st' with Some v => v | None => VUnit end,
-   {| env := env st; cs := cs st'; charged := charged st'; lg := lg st';
-      ret := match ret st' with Some VPanic => Some VPanic | _ => ret st end |}).
+   {| env := env st; cs := cs st'; charged := charged st'; lg := lg st'; ret := ret st |}).
 
-(* continue with (v, st1) unless a return / panic is under way *)
-Definition bindr {A} (x : option (value * state)) (stop : state -> A) (k : value -> state -> option A) : option A :=
+(* continue with (v, st1) unless a return is under way *)
+Definition bindr (x : option (value * state)) (k : value -> state -> option (value * state)) : option (value * state) :=
   match x with
   | None => None
-  | Some (v, st1) => if returning st1 then Some (stop st1) else k v st1
+  | Some (v, st1) => if returning st1 then Some (VUnit, st1) else k v st1
   end.
+Definition unit_of (o : option state) : option (value * state) := match o with Some st => Some (VUnit, st) | None => None end.
+(* a block: what it declares goes out of scope at its end *)
+Definition in_block (outer : state) (x : option (value * state)) : option (value * state) :=
+  match x with Some (v, st) => Some (v, leave_block outer st) | None => None end.
+Definition state_of (x : option (value * state)) : option state := match x with Some (_, st) => Some st | None => None end.
 
-(* ---------- statements ---------- *)
-Fixpoint exec (fn : string) (s : stmt) (st : state) {struct s} : option state :=
+(* ---------- execution: statements yield VUnit ---------- *)
+Fixpoint exec (fn : string) (s : tm) (st : state) {struct s} : option (value * state) :=
   match s with
-  | SSkip => Some st
-  | SSeq a b => st1 <- exec fn a st ;; if returning st1 then Some st1 else exec fn b st1
-  | SLet p r => bindr (exec_rhs fn r st) (fun s1 => s1) (fun v st1 => bind_pat fn p v st1)
-  | SDecl x => Some (with_env st ((x, VUninit) :: env st))
-  | SAssign l r => bindr (exec_rhs fn r st) (fun s1 => s1) (fun v st1 => assign l v st1)
-  | SExpr r => bindr (exec_rhs fn r st) (fun s1 => s1) (fun v st1 => l <- drop_log fn v ;; Some (add_log st1 l))
-  | SIf c a b =>
-      bindr (exec_rhs fn c st) (fun s1 => s1) (fun v st1 =>
-        match v with
-        | VBool true => st2 <- exec fn a st1 ;; Some (leave_block st1 st2)
-        | VBool false => st2 <- exec fn b st1 ;; Some (leave_block st1 st2)
-        | _ => None
-        end)
-  | SIfSome p r a b =>
-      bindr (exec_rhs fn r st) (fun s1 => s1) (fun v st1 =>
-        match v with
-        | VSome w => st2 <- bind_pat fn p w st1 ;; st3 <- exec fn a st2 ;; Some (leave_block st1 st3)
-        | VNone => st2 <- exec fn b st1 ;; Some (leave_block st1 st2)
-        | _ => None
-        end)
-  | SMatchRes r p1 a p2 b =>
-      bindr (exec_rhs fn r st) (fun s1 => s1) (fun v st1 =>
-        match v with
-        | VOk w => st2 <- bind_pat fn p1 w st1 ;; st3 <- exec fn a st2 ;; Some (leave_block st1 st3)
-        | VErr w => st2 <- bind_pat fn p2 w st1 ;; st3 <- exec fn b st2 ;; Some (leave_block st1 st3)
-        | _ => None
-        end)
-  | SWhile c body =>
-      while_loop (fun s1 => match eval (env s1) (cs s1) c with Some (VBool t) => Some t | _ => None end)
-                 (fun s1 => s2 <- exec fn body s1 ;; Some (leave_block s1 s2))
-                 (List.length (glist (bg (cs st)))) st
-  | SLoop body => loop_n (fun s1 => s2 <- exec fn body s1 ;; Some (leave_block s1 s2)) loop_fuel st
-  | SRet r => bindr (exec_rhs fn r st) (fun s1 => s1) (fun v st1 => Some (with_ret st1 (Some v)))
-  | SUnknown _ => None
-  end
-with exec_rhs (fn : string) (r : rhs) (st : state) {struct r} : option (value * state) :=
-  match r with
   | RExp e => v <- eval (env st) (cs st) e ;; Some (v, st)
   | RPrim p args => vs <- eval_list (env st) (cs st) args ;; do_prim p vs st
   | RCall name ps body args =>
       vs <- eval_list (env st) (cs st) args ;;
       if Nat.eqb (List.length ps) (List.length vs) then
-        st' <- exec name body (enter ps vs st) ;; Some (leave st st')
+        x <- exec name body (enter ps vs st) ;; Some (leave st (snd x))
       else None
   | RMap r1 p body tail =>
-      bindr (exec_rhs fn r1 st) (fun s1 => (VUnit, s1)) (fun v st1 =>
+      bindr (exec fn r1 st) (fun v st1 =>
         match v with
         | VNone => Some (VNone, st1)
         | VSome w =>
-            st2 <- bind_pat fn p w st1 ;;
-            st3 <- exec fn body st2 ;;
-            if returning st3 then Some (VUnit, leave_block st1 st3) else
-            bindr (exec_rhs fn tail st3) (fun s4 => (VUnit, leave_block st1 s4)) (fun t st4 => Some (VSome t, leave_block st1 st4))
+            in_block st1
+              (st2 <- bind_pat fn p w st1 ;;
+               bindr (exec fn body st2) (fun _ st3 =>
+               bindr (exec fn tail st3) (fun t st4 => Some (VSome t, st4))))
         | _ => None
         end)
   | RUnwrap r1 =>
-      bindr (exec_rhs fn r1 st) (fun s1 => (VUnit, s1)) (fun v st1 =>
+      bindr (exec fn r1 st) (fun v st1 =>
         match v with
         | VSome w | VOk w => Some (w, st1)
-        | VNone | VErr _ => Some (VUnit, with_ret st1 (Some VPanic))
         | _ => None
         end)
   | RUnwrapUnchecked r1 =>
-      bindr (exec_rhs fn r1 st) (fun s1 => (VUnit, s1)) (fun v st1 =>
+      bindr (exec fn r1 st) (fun v st1 =>
         match v with VSome w | VOk w => Some (w, st1) | _ => None end)
   | RTry r1 =>
-      bindr (exec_rhs fn r1 st) (fun s1 => (VUnit, s1)) (fun v st1 =>
+      bindr (exec fn r1 st) (fun v st1 =>
         match v with
         | VOk w => Some (w, st1)
         | VErr e => Some (VUnit, with_ret st1 (Some (VErr e)))
         | _ => None
         end)
   | RProj r1 i =>
-      bindr (exec_rhs fn r1 st) (fun s1 => (VUnit, s1)) (fun v st1 =>
+      bindr (exec fn r1 st) (fun v st1 =>
         match v, i with
         | VKV e, O => Some (VKey (ek e), add_log st1 [LDrop [vtok (ev e)]])
         | VKV e, S O => Some (VVal (ev e), add_log st1 [LDrop [ktok (ek e)]])
@@ -523,31 +488,64 @@ with exec_rhs (fn : string) (r : rhs) (st : state) {struct r} : option (value * 
         | _, _ => None
         end)
   | RIsSome r1 =>
-      bindr (exec_rhs fn r1 st) (fun s1 => (VUnit, s1)) (fun v st1 =>
+      bindr (exec fn r1 st) (fun v st1 =>
         match v with VSome _ => Some (VBool true, st1) | VNone => Some (VBool false, st1) | _ => None end)
   | ROkOr r1 e =>
-      bindr (exec_rhs fn r1 st) (fun s1 => (VUnit, s1)) (fun v st1 =>
+      bindr (exec fn r1 st) (fun v st1 =>
         match v with
         | VSome w => Some (VOk w, st1)
         | VNone => w <- eval (env st1) (cs st1) e ;; Some (VErr w, st1)
         | _ => None
         end)
+  | SSkip => Some (VUnit, st)
+  | SSeq a b => bindr (exec fn a st) (fun _ st1 => exec fn b st1)
+  | SLet p r => bindr (exec fn r st) (fun v st1 => unit_of (bind_pat fn p v st1))
+  | SDecl x => Some (VUnit, with_env st ((x, VUninit) :: env st))
+  | SAssign l r => bindr (exec fn r st) (fun v st1 => unit_of (assign l v st1))
+  | SExpr r => bindr (exec fn r st) (fun v st1 => l <- drop_log fn v ;; Some (VUnit, add_log st1 l))
+  | SIf c a b =>
+      bindr (exec fn c st) (fun v st1 =>
+        match v with
+        | VBool true => in_block st1 (exec fn a st1)
+        | VBool false => in_block st1 (exec fn b st1)
+        | _ => None
+        end)
+  | SIfSome p r a b =>
+      bindr (exec fn r st) (fun v st1 =>
+        match v with
+        | VSome w => in_block st1 (st2 <- bind_pat fn p w st1 ;; exec fn a st2)
+        | VNone => in_block st1 (exec fn b st1)
+        | _ => None
+        end)
+  | SMatchRes r p1 a p2 b =>
+      bindr (exec fn r st) (fun v st1 =>
+        match v with
+        | VOk w => in_block st1 (st2 <- bind_pat fn p1 w st1 ;; exec fn a st2)
+        | VErr w => in_block st1 (st2 <- bind_pat fn p2 w st1 ;; exec fn b st2)
+        | _ => None
+        end)
+  | SWhile c body =>
+      unit_of (while_loop (fun s1 => match eval (env s1) (cs s1) c with Some (VBool t) => Some t | _ => None end)
+                          (fun s1 => state_of (in_block s1 (exec fn body s1)))
+                          (List.length (glist (bg (cs st)))) st)
+  | SLoop body => unit_of (loop_n (fun s1 => state_of (in_block s1 (exec fn body s1))) loop_fuel st)
+  | SRet r => bindr (exec fn r st) (fun v st1 => Some (VUnit, with_ret st1 (Some v)))
+  | SUnknown _ => None
   end.
 
 (* ---------- running a function ---------- *)
 Definition call_fn (f : fn_decl) (vs : list value) (st : state) : option (value * state) :=
   if Nat.eqb (List.length (fn_params f)) (List.length vs) then
-    st' <- exec (fn_name f) (fn_body f) (enter (fn_params f) vs st) ;; Some (leave st st')
+    x <- exec (fn_name f) (fn_body f) (enter (fn_params f) vs st) ;; Some (leave st (snd x))
   else None.
 
 Definition init (b : bstate) : state := {| env := []; cs := b; charged := false; lg := []; ret := None |}.
-(* a public operation: value returned (VPanic if it panicked), final cache, whether it erased something, the log *)
+(* a public operation: value returned, final cache, whether it erased something, the log *)
 Definition run_fn (f : fn_decl) (vs : list value) (b : bstate) : option (value * bstate * bool * list logitem) :=
   x <- call_fn f vs (init b) ;;
-  let '(v, st) := x in
-  Some (match ret st with Some VPanic => VPanic | _ => v end, cs st, charged st, lg st).
-(* ... read as Layer A/B read it: `proj` says which `out` the returned value stands for (None: no outcome of the
-   model, e.g. a panic where StepB.v has no panic outcome: a fault) *)
+  let '(v, st) := x in Some (v, cs st, charged st, lg st).
+(* ... read as Layer A/B read it: `proj` says which `out` the returned value stands for (None: not a value the
+   operation can return: a fault) *)
 Definition run_op (f : fn_decl) (vs : list value) (proj : value -> option out) (b : bstate) : option (bstate * out * events) :=
   x <- run_fn f vs b ;;
   let '(v, b', _, l) := x in
@@ -555,7 +553,7 @@ Definition run_op (f : fn_decl) (vs : list value) (proj : value -> option out) (
 End Sem.
 
 Lemma exec_call E VS oB fn f args st :
-  exec_rhs E VS oB fn (call f args) st = (vs <- eval_list VS (env st) (cs st) args ;; call_fn E VS oB f vs st).
+  exec E VS oB fn (call f args) st = (vs <- eval_list VS (env st) (cs st) args ;; call_fn E VS oB f vs st).
 Proof. reflexivity. Qed.
 Arguments call : simpl never.
 
@@ -571,24 +569,21 @@ Fixpoint e_unknowns (e : expr) : list string :=
   end.
 Definition l_unknowns (l : lhs) : list string := match l with LSize e => e_unknowns e | _ => [] end.
 (* callee bodies are not descended into: every function is listed (and checked) on its own *)
-Fixpoint s_unknowns (s : stmt) : list string :=
+Fixpoint s_unknowns (s : tm) : list string :=
   match s with
+  | RExp e => e_unknowns e
+  | RPrim _ args | RCall _ _ _ args => flat_map e_unknowns args
+  | RMap r1 _ body tail => s_unknowns r1 ++ s_unknowns body ++ s_unknowns tail
+  | RUnwrap r1 | RUnwrapUnchecked r1 | RTry r1 | RProj r1 _ | RIsSome r1 => s_unknowns r1
+  | ROkOr r1 e => s_unknowns r1 ++ e_unknowns e
   | SSeq a b => s_unknowns a ++ s_unknowns b
-  | SLet _ r | SExpr r | SRet r => r_unknowns r
-  | SAssign l r => l_unknowns l ++ r_unknowns r
-  | SIf c a b => r_unknowns c ++ s_unknowns a ++ s_unknowns b
-  | SIfSome _ r a b => r_unknowns r ++ s_unknowns a ++ s_unknowns b
-  | SMatchRes r _ a _ b => r_unknowns r ++ s_unknowns a ++ s_unknowns b
+  | SLet _ r | SExpr r | SRet r => s_unknowns r
+  | SAssign l r => l_unknowns l ++ s_unknowns r
+  | SIf c a b => s_unknowns c ++ s_unknowns a ++ s_unknowns b
+  | SIfSome _ r a b => s_unknowns r ++ s_unknowns a ++ s_unknowns b
+  | SMatchRes r _ a _ b => s_unknowns r ++ s_unknowns a ++ s_unknowns b
   | SWhile c body => e_unknowns c ++ s_unknowns body
   | SLoop body => s_unknowns body
   | SUnknown t => [t]
-  | _ => []
-  end
-with r_unknowns (r : rhs) : list string :=
-  match r with
-  | RExp e => e_unknowns e
-  | RPrim _ args | RCall _ _ _ args => flat_map e_unknowns args
-  | RMap r1 _ body tail => r_unknowns r1 ++ s_unknowns body ++ r_unknowns tail
-  | RUnwrap r1 | RUnwrapUnchecked r1 | RTry r1 | RProj r1 _ | RIsSome r1 => r_unknowns r1
-  | ROkOr r1 e => r_unknowns r1 ++ e_unknowns e
+  | SSkip | SDecl _ => []
   end.
